@@ -256,13 +256,19 @@ def run_case_in(c, st):
         res['out'], res['exc'] = outcome_rep(lambda: mod.f(val), 1 if has_iter(c['val']) else 3)
         res['body_ran'] = len(journal)
     elif obs == 'dataclass':
-        src = ('from pedantic import frozen_type_safe_dataclass\n@frozen_type_safe_dataclass\nclass D:\n    x: ANN\n')
+        # the instance is built through the type-safe class itself, through an undecorated subclass that only adds a method, or
+        # through a plain @frozen_dataclass subclass that adds a defaulted field: the subclasses have no type-safe hook of their
+        # own, the field x is checked all the same (which of the three: fixed by the position of the case in its run)
+        src = ('from pedantic import frozen_type_safe_dataclass, frozen_dataclass\n@frozen_type_safe_dataclass\nclass D:\n    x: ANN\n\n\n'
+               'class E(D):\n    def label(self) -> str:\n        return "e"\n\n\n@frozen_dataclass\nclass F(D):\n    y: int = 0\n')
         try:
             mod = make_module(src, dict(ctx, ANN=ann))
         except BaseException as ex:
             res['out'], res['exc'] = 9, 'decoration failed: ' + repr(ex)[:100]
             return res
-        res['out'], res['exc'] = outcome_rep(lambda: mod.D(x=val), 1 if has_iter(c['val']) else 3)
+        cls_ = (mod.D, mod.E, mod.F)[int(c.get('grp', 0)) % 3]
+        res['via_class'] = cls_.__name__
+        res['out'], res['exc'] = outcome_rep(lambda: cls_(x=val), 1 if has_iter(c['val']) else 3)
     return res
 
 
